@@ -3,6 +3,7 @@
    the sources (Model.Build.gen_bfacts), under decidable obligations on that record closed by vm_compute. *)
 From Coq Require Import List ZArith NArith Bool.
 From SudachiVerif Require Import Model.GuardLang Model.Params Model.Build Proofs.GuardProofs Proofs.BuildProofs.
+From SudachiVerif Require Import Model.BuildHistory Proofs.BuildHistoryProofs.
 Import ListNotations.
 Open Scope Z_scope.
 
@@ -92,3 +93,68 @@ Theorem C06_retry_is_fresh_build : forall inp ks total moff k d c,
   c = true /\ build inp = Ok d /\ total <= k.
 Proof. rewrite session_is_keeping. exact (retry_is_fresh_build gen_bfacts). Qed.
 Print Assumptions C06_retry_is_fresh_build.
+
+(* ======================================================================================================================
+   The header (Header::write_to, the first thing compile writes; its returned size is the base of every later offset) *)
+
+(* facts: the guard compares the BYTE length of the description with DESCRIPTION_SIZE using `>`, the padding is
+   DESCRIPTION_SIZE - len by plain subtraction, STORAGE_SIZE = 8 + 8 + DESCRIPTION_SIZE; every other shape of write_to /
+   header_parser / compile's use of the returned size was recognised *)
+Fact C06_header_facts_ok : hfacts_ok gen_hfacts = true.
+Proof. vm_compute. reflexivity. Qed.
+
+Fact C06_header_shapes_recognised : BuildGuards.header_unrecognised = [].
+Proof. vm_compute. reflexivity. Qed.
+
+(* the layout: a description of at most 256 UTF-8 bytes gives exactly STORAGE_SIZE = 272 bytes -- version, time, the
+   description bytes, zero padding; a longer one gives an error value: never success with a shifted layout *)
+Theorem C06_header_layout : forall v t d,
+  let lb := Z.of_nat (List.length (utf8 d)) in
+  (lb <= h_size gen_hfacts ->
+     header v t d = Ok (le_bytes 8 v ++ le_bytes 8 t ++ utf8 d ++ repeat 0%N (Z.to_nat (h_size gen_hfacts - lb)))
+     /\ Z.of_nat (List.length (le_bytes 8 v ++ le_bytes 8 t ++ utf8 d ++ repeat 0%N (Z.to_nat (h_size gen_hfacts - lb)))) = h_storage gen_hfacts)
+  /\ (h_size gen_hfacts < lb -> header v t d = Err).
+Proof. exact (header_layout gen_hfacts C06_header_facts_ok). Qed.
+Print Assumptions C06_header_layout.
+
+Theorem C06_header_never_panics : forall v t d, header v t d <> Panic.
+Proof. exact (header_write_never_panics gen_hfacts C06_header_facts_ok). Qed.
+Print Assumptions C06_header_never_panics.
+
+(* round trip through Header::parse (description without NUL, 64-bit version and time) *)
+Theorem C06_header_roundtrip : forall v t d bs rest,
+  (v < 18446744073709551616)%N -> (t < 18446744073709551616)%N -> ~ In 0%N (utf8 d) ->
+  header v t d = Ok bs -> header_parse gen_hfacts (bs ++ rest) = Some (v, t, utf8 d).
+Proof. exact (header_roundtrip gen_hfacts C06_header_facts_ok). Qed.
+Print Assumptions C06_header_roundtrip.
+
+(* ======================================================================================================================
+   Call histories on one builder: read_conn / read_lexicon / resolve / compile in any order and repetition, every call
+   carried out whatever the earlier ones returned (with what a failing call leaves behind) *)
+
+(* facts: read_conn hands the buffer's dimensions to the lexicon also when reading failed half-way, leaves the limits of a
+   user dictionary alone; read_lexicon clears `resolved`; compile validates unconditionally (build_unrecognised = []) *)
+Fact C06_history_facts_ok :
+  BuildGuards.conn_limits_follow_on_error = true /\ BuildGuards.conn_limits_fixed_for_user = true
+  /\ BuildGuards.read_lexicon_clears_resolved = true /\ BuildGuards.build_unrecognised = [].
+Proof. repeat split; vm_compute; reflexivity. Qed.
+
+Lemma history_is_following : history = run_history gen_bfacts true true.
+Proof. unfold history. destruct C06_history_facts_ok as (-> & -> & _). reflexivity. Qed.
+
+(* C06_success_means_valid for every call history: whatever was called before, in whatever order and with whatever outcome,
+   a compile that reports success once a matrix is known (a read_conn got past its header line, or the dictionary is a user
+   dictionary) has produced a valid dictionary -- and no call of any history panics *)
+Theorem C06_history_success_means_valid : forall ops st, Inv st -> 0 <= hs_nsys st ->
+  (forall i r, nth_error (history st ops) i = Some r -> r <> Panic)
+  /\ forall i d, nth_error (history st ops) i = Some (Ok (Some d)) ->
+       matrix_known (final_state gen_bfacts true true st (firstn i ops)) = true ->
+       dict_valid d = true /\ stores_in_range d = true.
+Proof. rewrite history_is_following. exact (history_success_means_valid gen_bfacts C06_generated_guards_ok). Qed.
+Print Assumptions C06_history_success_means_valid.
+
+(* the invariant holds for a fresh system-dictionary builder and for a user-dictionary builder on any loaded grammar *)
+Theorem C06_fresh_builders_satisfy_invariant :
+  Inv init_system /\ forall a b n, 0 <= a <= 32767 -> 0 <= b <= 32767 -> Inv (init_user a b n).
+Proof. exact (conj Inv_init_system Inv_init_user). Qed.
+Print Assumptions C06_fresh_builders_satisfy_invariant.
